@@ -323,6 +323,9 @@ func (g *Gen) heapInit(name string) *HV {
 	}
 	so := g.heapSort(name)
 	t := g.s.declNamed("H0."+sanitize(name), so)
+	if name == "alloc" {
+		g.s.assume("(>= " + t.S + " 0)") // the allocation frontier is a count of objects
+	}
 	hv := g.newHV(name, so, t.S, hvInit)
 	g.inits[name] = hv
 	return hv
